@@ -85,12 +85,15 @@ def gen_history(rng):
             "opseed": rng.getrandbits(32)}
 
 
-def run_history(case, acc, post_edit=None, entry_ops=False, prop="C14"):
+def run_history(case, acc, post_edit=None, entry_ops=False, prop="C14", active=(),
+                append_only_to_exits=False):
     from numba_scfg.core.datastructures.basic_block import RegionBlock, SyntheticBranch
     from ..oracles.paths import name_walk
 
     ctx = core.set_ctx(core.Ctx(None))
     attach.ACTIVE.clear()
+    attach.ACTIVE.update(active)
+    ctx.data["history_mode"] = case["mode"]
     g = {k: tuple(v) for k, v in case["g"].items()}
     scfg = drivers.make_scfg(g)
     tr = attach.track_of(scfg)
@@ -147,7 +150,7 @@ def run_history(case, acc, post_edit=None, entry_ops=False, prop="C14"):
                         extra = rng.choice(K)
                         if extra not in S:
                             S.append(extra)
-                elif exits_only or mode == "any":
+                elif exits_only or (mode == "any" and not append_only_to_exits):
                     S = []
                 else:
                     continue
